@@ -195,17 +195,44 @@ def JVal.isArr : JVal → Bool
   | .arr _ => true
   | _ => false
 
-/-- Go's `a == b` on interface values: different dynamic types are unequal; equal types compare by
-    value; comparing two values of the same uncomparable type ([]interface{} with []interface{},
-    map with map) panics (`none`). -/
+mutual
+  /-- `reflect.DeepEqual` on decoded JSON values (objects are presented with their keys in sorted order — the harness
+      encodes them so —, which makes the positional comparison the comparison of maps) -/
+  def JVal.deepEq : JVal → JVal → Bool
+    | .null, .null => true
+    | .bool a, .bool b => a == b
+    | .num a, .num b => F64.eq a b
+    | .str a, .str b => a == b
+    | .arr a, .arr b => JVal.deepEqL a b
+    | .obj a, .obj b => JVal.deepEqKV a b
+    | _, _ => false
+  def JVal.deepEqL : List JVal → List JVal → Bool
+    | [], [] => true
+    | x :: xs, y :: ys => JVal.deepEq x y && JVal.deepEqL xs ys
+    | _, _ => false
+  def JVal.deepEqKV : List (String × JVal) → List (String × JVal) → Bool
+    | [], [] => true
+    | (k, v) :: r, (k', v') :: r' => k == k' && JVal.deepEq v v' && JVal.deepEqKV r r'
+    | _, _ => false
+end
+
+/-- the comparison `updateValue` makes between the stored and the new value (`sameValue`, F50 repair): Go's `a == b` on
+    interface values — different dynamic types are unequal, equal types compare by value — except that two values of an
+    uncomparable type ([]interface{}, map: only a characteristic WITHOUT a format stores such) are compared with
+    `reflect.DeepEqual` instead of panicking. Total: never `none`. -/
 def goEq : GVal → GVal → Option Bool
   | .nil, .nil => some true
   | .bool a, .bool b => some (a == b)
   | .int a, .int b => some (a == b)
   | .float a, .float b => some (F64.eq a b)
   | .str a, .str b => some (a == b)
-  | .comp a, .comp b => if JVal.isArr a == JVal.isArr b then none else some false
+  | .comp a, .comp b => some (JVal.deepEq a b)
   | _, _ => some false
+
+/-- before the repair: a bare `==`, which panics (`none`) for two values of the same uncomparable type -/
+def goEqOld : GVal → GVal → Option Bool
+  | .comp a, .comp b => if JVal.isArr a == JVal.isArr b then none else some false
+  | a, b => goEq a b
 
 /-- the typed callback's assertion `new.(T)` -/
 def cbOutcome (cfg : Config) (fromConn : Bool) (new : GVal) : Outcome :=
@@ -263,6 +290,11 @@ def getValue (c : Chr) (fromConn : Bool) (gf : Option GVal) : Chr × Outcome × 
 
 /-- `Int.GetValue`, `Float.GetValue`, `String.GetValue`, `Bool.GetValue`: `c.Value.(T)` -/
 def typedGet (_c : Chr) (_t : GType) : Outcome := .ok      -- `value, _ := c.Value.(T)` (F37 repair: was a bare assertion)
+
+/-- `Int/Float.GetMinValue / GetMaxValue / GetStepValue`: `v, _ := c.MinValue.(T)` (F51 repair: was a bare assertion,
+    which panics for every characteristic that does not declare that bound) -/
+def rangeGet (_bound : GVal) (_t : GType) : Outcome := .ok
+def rangeGetOld (bound : GVal) (t : GType) : Outcome := if bound.hasType t then .ok else .panic
 
 /-- what the typed getter returns: the stored value if it has the getter's type, otherwise the zero value of that type
     (in particular for a characteristic that stores nothing, e.g. a write-only one) -/
